@@ -1572,6 +1572,10 @@ func (t *tr) assign0(s *ast.AssignStmt, en env) (string, env) {
 					en.m[l.Name] = evar{"false", "Err", old.depth}
 					continue
 				}
+				if old.t == "Addr" && v.T == "Acc" {
+					// a variable that holds a module address on one path and an account on another
+					v = V{"(Addr.user " + atom(v.L) + ")", "Addr"}
+				}
 				if v.T != old.t {
 					return t.failf("assignment of %s to %s : %s", v.T, l.Name, old.t), en
 				}
